@@ -11,7 +11,7 @@ use vcore::{json, Check, Outcome, Report, Tier, Value};
 type C = Complex<f64>;
 
 // ------------------------------------------------------------------ systems A(x-r) + c N(x-r)
-const MATS: [&str; 6] = ["identity", "ill-scaled-diagonal", "rotation-x-scale", "triangular", "symmetric-indefinite", "singular"];
+const MATS: [&str; 8] = ["identity", "ill-scaled-diagonal", "rotation-x-scale", "triangular", "symmetric-indefinite", "singular", "rotation-x-0.15", "rotation-x-40"];
 const NONLIN: [&str; 3] = ["affine", "square", "sin"];
 fn matrix(kind: usize, d: usize) -> Vec<Vec<f64>> {
     let mut a = vec![vec![0.0; d]; d];
@@ -20,15 +20,15 @@ fn matrix(kind: usize, d: usize) -> Vec<Vec<f64>> {
             a[i][j] = match kind {
                 0 => (i == j) as u8 as f64,
                 1 => if i == j { 100f64.powf(if d == 1 { 0.5 } else { i as f64 / (d - 1) as f64 }) } else { 0.0 },
-                2 => 0.0,
+                2 | 6 | 7 => 0.0,
                 3 => if i == j { 1.0 + 0.5 * i as f64 } else if j > i { 0.5 } else { 0.0 },
                 4 => if i == j { if i % 2 == 0 { 1.5 } else { -1.2 } } else { 0.3 },
                 _ => if i + 1 == d && d > 1 { 0.0 } else if d == 1 { 0.0 } else if i == j { 1.0 } else { 0.25 },
             };
         }
     }
-    if kind == 2 {
-        // product of plane rotations times 2
+    if kind == 2 || kind == 6 || kind == 7 {
+        // product of plane rotations times 2 (times 0.15 / 40: perfectly conditioned, determinant 0.15^d / 40^d)
         for i in 0..d {
             a[i][i] = 1.0;
         }
@@ -42,7 +42,7 @@ fn matrix(kind: usize, d: usize) -> Vec<Vec<f64>> {
         }
         for r in a.iter_mut() {
             for v in r.iter_mut() {
-                *v *= 2.0;
+                *v *= [2.0, 0.15, 40.0][if kind == 2 { 0 } else { kind - 5 }];
             }
         }
     }
@@ -139,7 +139,7 @@ impl Check for Systems {
         "systems"
     }
     fn rule(&self) -> String {
-        "newton and secant on F(x) = A(x-r) + c N(x-r): dimension 1-4 x 6 matrices (one singular) x N in {0, square, sin} x c x root {0, (3,-2,..), (1e3,..)} x start {origin; r + d u for d in {0, 5e-3, 1e-2, 0.2} (below, at and above the finite-difference width), u over the axes and the diagonal; non-linear systems of dimension >= 2 also from a polar lattice r + rho (cos phi, sin phi) with rho in {0.1, 0.2, 0.3} and phi every 10 (quick) / 5 (thorough) degrees} x tolerance x finite-difference width x iteration cap; signature = (method, outcome class, matrix kind, start class)".into()
+        "newton and secant on F(x) = A(x-r) + c N(x-r): dimension 1-4 x 8 matrices (one singular; two perfectly conditioned with a tiny / huge determinant) x N in {0, square, sin} x c x root {0, (3,-2,..), (1e3,..)} x start {origin; r + d u for d in {0, 5e-3, 1e-2, 0.2} (below, at and above the finite-difference width), u over the axes and the diagonal; non-linear systems of dimension >= 2 also from a polar lattice r + rho (cos phi, sin phi) with rho in {0.1, 0.2, 0.3} and phi every 10 (quick) / 5 (thorough) degrees} x tolerance x finite-difference width x iteration cap; signature = (method, outcome class, matrix kind, start class)".into()
     }
     fn axes(&self, t: Tier) -> Value {
         json!({"matrices": MATS, "nonlinearity": NONLIN, "c": [0.0, 0.1], "tol": t.pick(vec![1e-3, 1e-10], vec![1e-3, 1e-6, 1e-10]), "h": t.pick(vec![1e-2, 1e-4], vec![1e-2, 1e-4, 1e-6]), "cap": [1, 2, 50], "dist": [0.0, 5e-3, 1e-2, 0.2]})
@@ -148,7 +148,7 @@ impl Check for Systems {
         let mut v = vec![];
         for method in ["newton", "secant"] {
             for dim in 1..=4 {
-                for mat in 0..6 {
+                for mat in 0..8 {
                     for nonlin in 0..3 {
                         let c = if nonlin == 0 { 0.0 } else { 0.1 };
                         for root in 0..3 {
